@@ -238,7 +238,9 @@ def evaluate(ctx, model, cases, record=True):
     if record:
         ctx.log('SPEC scan done')
     frames = [[] if l == '-' else [[int(a) for a in fr.split(':')] for fr in l.split(',')] for l in frames_l]
-    impl = run_impl(ctx, 'run', [{'id': i, 'hex': f.hex(), 'frames': fr} for i, f, fr in zip(ids, files, frames)])
+    # the two extra call variants (no return_counts / save_index=False) on every 2nd case and on all small batches
+    impl = run_impl(ctx, 'run', [{'id': i, 'hex': f.hex(), 'frames': fr, 'variants': len(cases) < 40 or int(i) % 2 == 0}
+                                 for i, f, fr in zip(ids, files, frames)])
     if record:
         ctx.log('IMPL done')
     tables = []
@@ -275,7 +277,8 @@ def evaluate(ctx, model, cases, record=True):
             sig = dict(obs=obs, **feat)
             sig.update(kw)
             found.append(('violation', sig, text, case))
-        x1, x2, x2b = r['x1'], r['x2'], r['x2b']
+        x1 = r['x1']
+        x2, x2b = r.get('x2', x1), r.get('x2b', dict(x1, idx=None))
         want_out = so.hex() if n else None
         excs = [(nm, x['ret']) for nm, x in (('extract(return_counts=True)', x1), ('extract()', x2), ('extract(save_index=False)', x2b)) if 'exc' in x['ret']]
         if 'x3' in r and 'exc' in r['x3']['ret']:
@@ -294,7 +297,7 @@ def evaluate(ctx, model, cases, record=True):
                          % (n, 'no file' if x1['out'] is None else '%d bytes' % (len(x1['out']) // 2), len(so)))
             if x1['ret']['ok'] != [n, types]:
                 viol('return', 'return value with return_counts is %r, expected %r' % (x1['ret']['ok'], [n, types]))
-            if x2['ret']['ok'] != n:
+            if 'x2' in r and x2['ret']['ok'] != n:
                 viol('return', 'return value without return_counts is %r, expected %d' % (x2['ret']['ok'], n))
             if x2['out'] != x1['out'] or x2['idx'] != x1['idx'] or x2b['out'] != x1['out']:
                 viol('output-bytes', 'extractions of the same input into different paths differ')
